@@ -216,6 +216,7 @@ func C19(c *Ctx, r *report.Run) error {
 		ruleViols string
 	}
 	var pending []pend
+	reqChecked := map[string]bool{}
 	for _, s := range specs {
 		l := mustLower(s)
 		docs, res, _ := genOAS(c, s, l, "format=json")
@@ -235,13 +236,22 @@ func C19(c *Ctx, r *report.Run) error {
 				return HarnessError("%v", err)
 			}
 			md := desc.(protoreflect.MessageDescriptor)
-			reqList, _ := model.Ptr(d.value, "/components/schemas/"+msgName+"/required")
-			required := map[string]bool{}
-			if rl, ok := reqList.([]any); ok {
-				for _, x := range rl {
-					if sname, ok := x.(string); ok {
-						required[sname] = true
+			// properties and required[] of the message schema, also when it is assembled with allOf (flatten, flattened oneof)
+			props, propPtrs, required := model.ObjectMembers(d.value, "/components/schemas/"+msgName)
+			if !reqChecked[s.Name+"/"+msgName] {
+				// every name a schema requires must be one of its properties (a required name without a property can never be satisfied)
+				reqChecked[s.Name+"/"+msgName] = true
+				var unknown []string
+				for name := range required {
+					if _, ok := props[name]; !ok {
+						unknown = append(unknown, name)
 					}
+				}
+				sort.Strings(unknown)
+				if len(unknown) > 0 {
+					r.Violate(fmt.Sprintf("%s,msg=%s#required_names", s.Cell, msgName), "required_mismatch", fmt.Sprintf("required[] of %s names %v, which the schema does not declare as properties", msgName, unknown), map[string]any{"spec": s, "message": msgName})
+				} else {
+					r.Case(fmt.Sprintf("%s,msg=%s", s.Cell, msgName), "required_names_are_properties", true)
 				}
 			}
 			fd := md.Fields().ByName(protoreflect.Name(rc.Field))
@@ -250,8 +260,11 @@ func C19(c *Ctx, r *report.Run) error {
 			if rc.Card != "" {
 				cell += ",card=" + rc.Card
 			}
-			ptr := "/components/schemas/" + msgName + "/properties/" + fd.JSONName()
-			schema, ok := model.Ptr(d.value, ptr)
+			ptr := propPtrs[fd.JSONName()]
+			schema, ok := props[fd.JSONName()]
+			if !ok {
+				ptr = "/components/schemas/" + msgName + "/properties/" + fd.JSONName()
+			}
 			replay := map[string]any{"spec": s, "field": rc.Field, "rules": rc.Rules}
 			if !ok {
 				r.Violate(cell, "schema_missing", "no property schema at "+ptr, replay)
@@ -357,7 +370,11 @@ func C19(c *Ctx, r *report.Run) error {
 				if !present {
 					continue
 				}
-				id := py.Validate(d.id, ptr, nil, false, inst)
+				var inline any
+				if propPtrs[fd.JSONName()] == "" {
+					inline = schema // assembled from oneOf branches that differ: validated as an inline schema
+				}
+				id := py.Validate(d.id, ptr, inline, false, inst)
 				pending = append(pending, pend{id, cell, len(viols) == 0, p.label, schema, s, rc.Field, strings.Join(viols, ",")})
 			}
 		}
